@@ -36,6 +36,15 @@ where
     let zk = rng.usize_in(1, 4);
     let mut zoo: Vec<M> = gen_zoo(rng, zk, if run.small { 8 } else { 48 });
     let mut coder: AnsCoder<M::W, S, Vec<M::W>> = AnsCoder::new();
+    if rng.chance(1, 8) {
+        for _ in 0..rng.usize_in(1, 30) {
+            let mi = rng.below(zoo.len() as u64) as usize;
+            let sym = pick_symbol(rng, zoo[mi].cdf());
+            zoo[mi].ans_encode(&mut coder, sym).expect("encode");
+        }
+        coder.clear();
+        run.count("ans_coders_reused_after_clear", 1);
+    }
     let mut reference = RefAns::new(w, s);
     let mut log: Vec<(u32, u128, u128)> = Vec::new();
     let mut flushes = 0u64;
@@ -114,6 +123,20 @@ where
     let max_len = if run.small { 40 } else if run.thorough() { 2000 } else { 300 };
     let n = rng.usize_in(0, max_len);
     let mut enc: Enc<M, S> = RangeEncoder::new();
+    if rng.chance(1, 6) {
+        // an encoder that was used before and clear()ed must emit the same format as a new one
+        let mut junk = Msg::<M> { zoo: Vec::new(), syms: Vec::new() };
+        let mut e0 = Edges::default();
+        let cfg0 = DriveCfg { n: rng.usize_in(1, 60), steer_16: 12, max_n_symbols: 16, end_near_16: 0 };
+        if !drive(run, rng, &mut enc, &mut junk, None, &mut e0, &cfg0, |_, _, _, _, _| true) {
+            return;
+        }
+        if num_inverted::<M, S>(&enc) > 0 {
+            run.count("clear_while_inverted", 1);
+        }
+        enc.clear();
+        run.count("range_encoders_reused_after_clear", 1);
+    }
     let mut reference = RefRange::new(w, s);
     let mut msg = Msg::<M> { zoo: Vec::new(), syms: Vec::new() };
     let mut edges = Edges::default();
